@@ -1007,6 +1007,7 @@ func TestVerifC10(t *testing.T) {
 	w.run([]c10Step{w.stepRaw(c10Raw{op: "3", proto: "-", client: "-", phantom: "-", dport: "-", sport: "-", timeout: "-"})}, true)
 
 	w.admittedEnumeration(r)
+	w.histories(vlib.NewRand("C10-histories"))
 	w.rawExhaustive()
 	w.directRandom(r, vlib.Budget(8000, 150000))
 	w.rawRandom(r, vlib.Budget(8000, 150000))
@@ -1065,8 +1066,12 @@ func c10Replay(w *c10World, path string) {
 				// the clock values of a wrapper's steps are a function of its bytes
 				raw, _ := hex.DecodeString(f[1])
 				steps = append(steps, w.ingestWrapper(raw, nil)...)
-			case f[0] == "markactive", f[0] == "(wrapper)", f[0] == "(scenario)":
-				// performed as part of the wrapper / scenario step it belongs to
+			case f[0] == "hist":
+				// a whole history of the registry next to the detector (zz_verif_c10_hist_test.go): runs,
+				// records and judges itself
+				w.histReplay(s)
+			case f[0] == "markactive", f[0] == "(wrapper)", f[0] == "(scenario)", f[0] == "(hist)":
+				// performed as part of the wrapper / scenario / history step it belongs to
 			case strings.HasPrefix(f[0], "shutdown-"):
 				steps = append(steps, w.shutdownScenario(f[0])...)
 			case f[0] == "sweep":
